@@ -96,6 +96,10 @@ VARIANTS = {
         lambda n: [n] + stmts('if descriptor_getter is descriptor.fget:\n    return descriptor'),
         scope='beartype_descriptor_decorator_builtin_property'), 'C13.R4',
         'an annotated setter of a property with an unannotated getter is left unchecked'),
+    # ---- deeper stacks / O0 ------------------------------------------------------------------------------------------------
+    'class-stack-truncated-to-root-and-current': tseeded(TYPE, lambda t: replace_where(
+        t, lambda n: isinstance(n, ast.BinOp) and ast.unparse(n) == 'cls_stack + (cls,)', lambda n: expr('(cls_stack[0], cls)'), scope='beartype_type'),
+        'C13.R2', 'seeded C13-21'),
     # ---- neutral ---------------------------------------------------------------------------------------
     'n-roundtrip-decortype': roundtrip(TYPE),
     'n-roundtrip-decornontype': roundtrip(NONTYPE),
